@@ -61,6 +61,7 @@ class _Rec:
 
 SQ = _Rec()
 ST = _Rec()
+ST.value = 2.0
 
 
 class _FakeMath:
@@ -85,7 +86,7 @@ class _FakeStatistics:
     @staticmethod
     def stdev(xs):
         ST.calls.append(list(xs))
-        return 2.0
+        return ST.value
 
     @staticmethod
     def median(xs):
@@ -125,19 +126,23 @@ def ob_rms(n, timeout):
 
 
 def ob_znorm(n, timeout):
-    names = ["x%d" % i for i in range(n)]
+    names = ["sd"] + ["x%d" % i for i in range(n)]
 
-    def body(*xs):
+    def body(sd, *xs):
         del ST.calls[:]
+        ST.value = sd  # what the (stubbed) statistics.stdev answers: any positive real, however small
         xs = list(xs)
-        out = my_math.znormalizeData(xs)
+        try:
+            out = my_math.znormalizeData(xs)
+        finally:
+            ST.value = 2.0
         if len(out) != n:
             return "length"
         if len(ST.calls) != 1 or ST.calls[0] != xs:
             return "sample standard deviation not taken of the input exactly once"
         m = sum(xs) / n
         for i in range(n):
-            if out[i] != (xs[i] - m) / 2.0:
+            if out[i] != (xs[i] - m) / sd:
                 return "z(v) != (v - mean) / sd"
         if sum(out) != 0:
             return "mean of the output is not 0"
@@ -147,7 +152,7 @@ def ob_znorm(n, timeout):
                     return "rank order not preserved"
         return True
 
-    return Ob("znormalize-n%d" % n, F(*names), body, lambda *xs: within(-100.0, 100.0, *xs), fmode="real", timeout=timeout, setup=_setup_math, funcs=FUNCS[1:2], bounds="%d symbolic reals; sd stub returns 2.0" % n)
+    return Ob("znormalize-n%d" % n, F(*names), body, lambda sd, *xs: within(-100.0, 100.0, *xs) & (sd > 0) & (sd <= 100.0), fmode="real", timeout=timeout, setup=_setup_math, funcs=FUNCS[1:2], bounds="%d symbolic reals; the sd stub returns an arbitrary real in (0,100]" % n)
 
 
 def ob_pitch_measures(n, filt_zero, median_w, timeout):
